@@ -617,6 +617,30 @@ func runC05(c *Ctx, r *Report) {
 		}
 	}
 	r.Floor("C05.R5", 2)
+
+	// shared C13.R1: setupRegister rewrites a *copy* of the body; ast.Modify must not write into its input
+	// (only when C05 itself is being decided: other properties that share C05 rules do not need it)
+	if r.Prop == "C05" && !r.Sub {
+		r.Rule("C13.R1", "(shared) ast.Modify is a copying rewriter: rewriting a body for one register allocation leaves the original body untouched for the next one")
+		sub := NewReport("C13", r.Tier, c)
+		sub.Sub = true
+		runC13(c, sub)
+		n := 0
+		for _, o := range sub.Obls {
+			if o.Rule != "C13.R1" {
+				continue
+			}
+			n++
+			if o.status == FAIL {
+				r.Fail(o.Rule, o.Func, o.Desc, o.Pos, o.Reason)
+			} else {
+				r.Ok(o.Rule, o.Func, o.Desc, o.Pos)
+			}
+		}
+		if n < 15 {
+			r.Undecided("C05: only %d shared C13.R1 obligations", n)
+		}
+	}
 }
 
 // storeOrRet: the instruction at which the returned value is fixed (the spill store in
